@@ -40,7 +40,10 @@ TRUSTED_BASE = [
     "open/readinto/getsize/listdir on regular files behave as specified; no concurrent writer",
 ]
 ASSUMPTIONS = [
-    "no symlinks or special files in the content tree; piece length is a power of two >= 16 KiB (C12 normalises it)",
+    "no special files, dangling links, link loops or symlinked DIRECTORIES in the content tree (symbolic links to files of the "
+    "payload are part of the end-to-end search: the creators follow them, a link is a file named like the link with the target's "
+    "bytes; the Coq models have no notion of a link and their correspondence runs on link-free trees); piece length is a power "
+    "of two >= 16 KiB (C12 normalises it)",
     "small-scope cases marked patched_constant run the real classes with torrentfile.hasher.BLOCK_SIZE patched to 4 "
     "(the theorems hold for every B > 0; the real-BLOCK_SIZE cases are counted separately)",
     "creator-level statements (file tree, piece layers dictionary, files list) are checked end to end against the "
@@ -299,7 +302,7 @@ REQUIRED_V2 = ["blocks n=1", "blocks n=2^a", "blocks n=2^a+1", "blocks n=2^a-1",
               [f"pl/B={a}" for a in (1, 2, 4, 8)] + ["short last block, full last piece", "full last block, short last piece"]
 REQUIRED_CREATORS = ["single file", "flat", "nested", "full-path order != per-directory order",
                      "identical files (shared root)", ">= 2 multi-piece files whose roots sort against tree order",
-                     "empty directory present"]
+                     "empty directory present"] + ["file symlink " + s for s in trees.LINK_SHAPES]
 
 
 def boundary_sizes(pl, b, limit=LIMIT):
@@ -580,6 +583,12 @@ def gen_case(salt, i):
             cl.discard("full-path order != per-directory order")
     cl -= {"flat", "nested", "identical files"}      # recomputed from the final tree by classify_tree
     opts = dict(rng.choice(OPTIONS))
+    if not single and (i % 4 == 1 or rng.random() < 0.12):
+        # symbolic links to files of the payload (values ("symlink", target) of the tree, see trees.add_links): the creators
+        # follow them, so the judgement is unchanged -- every link is a file named like the link with the target's bytes.
+        # The deliberately flat directories only get a link to a sibling
+        tree, lcl = trees.add_links(rng, tree, shapes=trees.LINK_SHAPES[:1] if i % 6 == 5 else trees.LINK_SHAPES)
+        cl |= lcl
     return pl, tree, empty_dirs, opts, set(cl)
 
 
@@ -724,11 +733,12 @@ def build_case(tmp, salt, i, kinds, cli_versions):
        Every creator of `kinds` runs plain, with align=True and re-assembled on the unchanged tree; case['changed'] is a second
        case on a copy of the payload: the creators are constructed, the payload changes (trees.mutate_tree), assemble() is called
        again and write(): judged -- like a fresh create, which is run next to it -- against the copy as it is on disk then"""
-    pl, tree, empty_dirs, opts, base = gen_case(salt, i)
+    pl, ltree, empty_dirs, opts, base = gen_case(salt, i)
+    tree = trees.resolve_links(ltree)       # what a reader sees; ltree (with the links) is only what gets written
     single = list(tree) == [()]
     name = "payload.bin" if single else "payload"
     root = os.path.join(tmp, f"c{i}", name)
-    write_case(root, tree, empty_dirs)
+    write_case(root, ltree, empty_dirs)
     metas = {}
     for kind in kinds:
         out = os.path.join(tmp, f"c{i}", kind)
@@ -743,24 +753,26 @@ def build_case(tmp, salt, i, kinds, cli_versions):
     classes = classify_tree(tree, pl, empty_dirs, order if not single else [], base)
     case = {"pl": pl, "tree": tree, "root": root, "single": single, "metas": metas, "opts": opts,
             "disk": disk, "classes": classes, "empty_dirs": empty_dirs, "i": i, "salt": salt,
-            "kinds": list(kinds), "cli_versions": list(cli_versions), "changed": None}
+            "kinds": list(kinds), "cli_versions": list(cli_versions), "changed": None, "links": trees.link_summary(ltree)}
     # the payload changes between construction and the second assemble()
     rng = random.Random(f"{salt}:e2e-change:{i}")
-    new, how = trees.mutate_tree(rng, tree, pl)
+    lnew, how = trees.mutate_tree(rng, ltree, pl)
+    new = trees.resolve_links(lnew)
     root2 = os.path.join(tmp, f"c{i}", "changed", name)
     metas2 = {}
     for kind in kinds:
         shutil.rmtree(os.path.dirname(root2), ignore_errors=True)
-        write_case(root2, tree, empty_dirs)                     # the state at construction
+        write_case(root2, ltree, empty_dirs)                    # the state at construction
         out = os.path.join(tmp, f"c{i}", "changed", kind)
         _create(metas2, kind + CHANGED, lambda: trees.create(kind, root2, out + "-again.torrent", pl,
-                                                             reassemble=lambda: trees.rewrite_tree(root2, tree, new), **opts))
+                                                             reassemble=lambda: trees.rewrite_tree(root2, ltree, lnew), **opts))
         if isinstance(metas2[kind + CHANGED], BaseException):   # wherever it stopped: the judged state is `new`
             shutil.rmtree(os.path.dirname(root2), ignore_errors=True)
-            write_case(root2, new, empty_dirs)
+            write_case(root2, lnew, empty_dirs)
         _create(metas2, kind, lambda: trees.create(kind, root2, out + ".torrent", pl, **opts))
     disk2 = oracle.walk_tree(root2)
     case["changed"] = dict(case, tree=new, root=root2, metas=metas2, disk=disk2, changed=None, change=how, tree_at_construction=tree,
+                           links=trees.link_summary(lnew),
                            classes=classify_tree(new, pl, empty_dirs, [c for c, _ in disk2] if not single else [], set()))
     return case
 
@@ -771,6 +783,8 @@ def case_input(case, kind):
            "tree": trees.tree_summary(case["tree"]), "empty_dirs": ["/".join(d) for d in case["empty_dirs"]],
            "options": case["opts"], "creators_run": case["kinds"], "cli_versions": case["cli_versions"],
            "case": f"e2e:{case['salt']}:{case['i']}:{kind}", "ast_changed": case.get("ast_changed", [])}
+    if case.get("links"):       # symbolic links of the payload: {path of the link: text of the link}; "tree" shows them as files
+        inp["symlinks"] = case["links"]
     if case.get("change"):
         inp.update(reassemble="changed", change=case["change"], tree_at_construction=trees.tree_summary(case["tree_at_construction"]))
     return inp
@@ -1038,6 +1052,8 @@ def _replay_e2e(tag, prop, inp):
         summary = trees.tree_summary(shown["tree"])
         if summary != inp.get("tree") or case["pl"] != inp.get("piece_length") or case["opts"] != inp.get("options"):
             return c01.cannot("e2e", f"the generator no longer yields the recorded tree: {summary} vs {inp.get('tree')}")
+        if case.get("links"):
+            print(f"{tag} symbolic links inside the payload (link: text of the link; shown as files in the tree): {case['links']}")
         print(f"{tag} tree {trees.tree_summary(case['tree'])}, empty directories {inp.get('empty_dirs')}, piece length {case['pl']}, "
               f"options {case['opts']}; creators {list(case['metas'])}")
         if case.get("changed"):
